@@ -35,9 +35,13 @@ var (
 
 func New(opts ...WriterOption) *Writer {
 	ensureSerializersInitialized()
+	// Each writer gets its own copy of the default options so that the
+	// functional options never write through to the package defaults.
+	o := *defaultOptions
+	o.formatOptions = map[string]interface{}{}
 	w := &Writer{
 		Storage: fstore.NewFileSystem(),
-		Options: defaultOptions,
+		Options: &o,
 	}
 
 	for _, opt := range opts {
@@ -148,7 +152,7 @@ func (w *Writer) WriteFile(bom *sbom.Document, path string) error {
 
 // Store persists a protobom document to disk using the default options
 func (w *Writer) Store(bom *sbom.Document) error {
-	return w.StoreWithOptions(bom, defaultOptions)
+	return w.StoreWithOptions(bom, w.Options)
 }
 
 // StoreWithOptions stores a protobom document using the configured storage
